@@ -99,7 +99,7 @@ pub fn plan_for(prop: &str, tier: &str) -> Plan {
             } else {
                 sc(&[("crash2", 1), ("crash2-lag", 1), ("crash2-page", 1), ("crash2-split", 1), ("crash2-split", 2), ("over", 0), ("over-two", 0), ("repl-batch-async-a1-unp-page-pre2", 0), ("crash2-unp", 2), ("crash2-async", 1), ("crash2-async-loose", 1), ("elect-stale", 0), ("fig8-div", 1), ("repl-div", 1), ("repl-mix-unp", 1), ("snap", 1), ("crash3", 1), ("repl", 1), ("crash3-lag", 1), ("crash3-page", 1), ("crash3-unp", 1), ("crash3-lazy", 1), ("crash2", 3), ("snap", 2), ("crash3-async", 1), ("crash3-split", 1), ("crash2-split", 3), ("repl-async-a1-unp", 0), ("repl-async-a1-unp-page", 0), ("crash3", 2)])
             };
-            p.required_stats = vec![Stat::ReadyChecked, Stat::EntriesApplied, Stat::HasReadyCloneChecks, Stat::Truncations];
+            p.required_stats = vec![Stat::ReadyChecked, Stat::EntriesApplied, Stat::HasReadyCloneChecks, Stat::Truncations, Stat::AppliedUnpersisted];
             p.explanation = "explicit-state exploration of every legal RawNode call history (advance | advance_append | advance_append_async + on_persist_ready in any batching, apply lag, pagination, truncation, snapshot, restart); application-side cursor model of the entries / hard state / committed-entries hand-off; has_ready() compared with ready() on a clone in every state".into();
         }
         "C08" => {
